@@ -151,7 +151,8 @@ Definition GP_b (b : cblk) : Prop := forall f st text env,
   (cfuel + bdepth b <= f)%nat -> wok st -> ctx st <> [] -> agrees st env -> envok env ->
   bout (c_ij cf) (mode st) go_print_text denv callee env b = Some text ->
   exists st' ws, walk_list (walk cf f) (bnodes b) st = (Ok tt, st') /\ wrote st st' ws /\ concat_b ws = text
-                 /\ mode st' = mode st /\ tl (ctx st') = tl (ctx st).
+                 /\ mode st' = mode st /\ tl (ctx st') = tl (ctx st)
+                 /\ (msg_ok b = true -> agrees st' env).      (* statements that bind nothing leave the scope as it is *)
 Definition GP_e (e : celse) : Prop := forall F st text env,
   (cfuel + edepth e < F)%nat -> wok st -> agrees st env -> envok env ->
   eout (c_ij cf) (mode st) go_print_text denv callee env e = Some text -> bres (if_conds (walk cf F) (enodes e)) st text.
@@ -202,11 +203,14 @@ Proof.
       intro E; inversion E; subst; exact Hc.
   - rewrite sout_call. destruct (cdata_env _ _ _ _); [|discriminate]. destruct (pout _ _ _ _ _ _ _ _); [|discriminate].
     destruct (callee _ _); [|discriminate]. intro E; inversion E; subst; exact Hc.
+  - rewrite sout_msg. destruct (msg_ok body); [|discriminate]. destruct (bout _ _ _ _ _ _ _); [|discriminate]. intro E; inversion E; subst; exact Hc.
 Qed.
 
 (* ---- calls ---- *)
 Lemma snode_call name d ps : snode (SCall name d ps) = NCall 0 name (cdata_all d) (cdata_node d) (pnodes ps). Proof. reflexivity. Qed.
 Lemma sdepth_call name d ps : sdepth (SCall name d ps) = S (S (Nat.max (ddepth d) (pdepth ps))). Proof. reflexivity. Qed.
+Lemma snode_msg body : snode (SMsg body) = NMsg 0 0 [] [] (mnodes body). Proof. reflexivity. Qed.
+Lemma sdepth_msg body : sdepth (SMsg body) = S (bdepth body). Proof. reflexivity. Qed.
 Lemma pnodes_val k e r : pnodes (PVal k e r) = NParamValue 0 k (cnode e) :: pnodes r. Proof. reflexivity. Qed.
 Lemma pnodes_cont k body r : pnodes (PCont k body r) = NParamContent 0 k (NList 0 (bnodes body)) :: pnodes r. Proof. reflexivity. Qed.
 Lemma pdepth_val k e r : pdepth (PVal k e r) = Nat.max (cdepth e) (pdepth r). Proof. reflexivity. Qed.
@@ -261,7 +265,7 @@ Proof.
   assert (A2 : agrees st2 env) by (subst st2; apply agrees_push; subst st1; exact Ha).
   assert (M2 : mode st2 = mode st) by reflexivity.
   assert (N2 : ctx st2 <> []) by (subst st2; cbn; discriminate).
-  destruct (Hb f st2 text env ltac:(lia) (wsame_wok _ _ S2 Hg) N2 A2 Hc) as (st3 & ws & E3 & W3 & C3 & M3 & X3). { rewrite M2. exact E. }
+  destruct (Hb f st2 text env ltac:(lia) (wsame_wok _ _ S2 Hg) N2 A2 Hc) as (st3 & ws & E3 & W3 & C3 & M3 & X3 & _). { rewrite M2. exact E. }
   unfold mbind at 1. rewrite E3. unfold mbind at 1. unfold m_pop. cbn [modify ret].
   exists (set_ctx st3 (sc_pop (ctx st3))), ws, VUndef. split; [reflexivity|].
   split; [apply (wrote_r _ st3); [exact (wrote_l _ _ _ _ S2 W3)|repeat split]|].
@@ -493,6 +497,18 @@ Proof.
       unfold sc_pop. rewrite T4, T3. subst stp. cbn. apply P.
 Qed.
 
+(* walkMsgBody on the children of a message without plural: raw text is walked, a placeholder's body is walked *)
+Lemma go_msg_body F body : msg_ok body = true -> forall st,
+  msg_body (walk cf F) 0 (mnodes body) st = walk_list (walk cf F) (bnodes body) st.
+Proof.
+  induction body as [|s r IH]; intros Hm st; [reflexivity|]. cbn [msg_ok] in Hm. apply andb_prop in Hm. destruct Hm as [Hs Hr].
+  cbn [mnodes bnodes]. fold bnodes.
+  assert (Hstep : forall x, msg_body (walk cf F) 0 (x :: mnodes r) st = (_ <-- walk cf F (snode s) ;;; msg_body (walk cf F) 0 (mnodes r)) st ->
+                  msg_body (walk cf F) 0 (x :: mnodes r) st = walk_list (walk cf F) (snode s :: bnodes r) st).
+  { intros x Hx. rewrite Hx. cbn [walk_list]. unfold mbind. destruct (walk cf F (snode s) st) as [[v| | | | |] st1]; try reflexivity. apply IH; exact Hr. }
+  destruct s; try discriminate Hs; apply Hstep; reflexivity.
+Qed.
+
 Theorem interp_all : (forall s, GP_s s) /\ (forall b, GP_b b) /\ (forall e, GP_e e) /\ (forall k, GP_k k) /\ (forall ps, GP_p ps).
 Proof.
   apply cstmt_mutind.
@@ -656,6 +672,17 @@ Proof.
     destruct (Hrun F st4 cd' ltac:(lia) (wsame_wok _ _ (pres_wsame _ _ P4) Hg) Ncd' Lcd' Hcenv) as (st5 & ws & rv & E5 & W5 & C5 & M5 & X5).
     exists st5, ws, rv. split; [exact E5|]. split; [exact (wrote_l _ _ _ _ (pres_wsame _ _ P4) W5)|]. split; [exact C5|].
     pose proof P4 as (C4 & M4 & _). split; congruence.
+  - (* msg *) intros body IHb f st text env env' Hf Hg Hn Ha Hc E. rewrite sout_msg in E.
+    destruct (msg_ok body) eqn:Hm; [|discriminate].
+    destruct (bout (c_ij cf) (mode st) go_print_text denv callee env body) as [t|] eqn:Et; [|discriminate]. inversion E; subst. clear E.
+    rewrite sdepth_msg in Hf. destruct f as [|F]; [lia|]. unfold sres. rewrite walk_unfold, snode_msg. cbn [walk_node].
+    match goal with |- context [set_cur st ?p] => set (st1 := set_cur st p) end.
+    assert (P1 : pres st st1) by apply pres_set_cur. pose proof P1 as (C1 & M1 & _).
+    destruct (IHb F st1 text env' ltac:(lia) (wsame_wok _ _ (pres_wsame _ _ P1) Hg) ltac:(congruence) (agrees_pres _ _ _ P1 Ha) Hc)
+      as (st2 & ws & E2 & W2 & T2 & M2 & X2 & A2). { rewrite M1. exact Et. }
+    unfold mbind at 1. rewrite (go_msg_body F body Hm), E2. cbn [ret].
+    exists st2, ws, VUndef. split; [reflexivity|]. split; [exact (wrote_l _ _ _ _ (pres_wsame _ _ P1) W2)|]. split; [exact T2|].
+    split; [congruence|]. split; [exact (dinv_nonempty _ (proj2 (A2 Hm)))|]. split; [congruence|exact (A2 Hm)].
   - (* BNil *) intros f st text env Hf Hg Hn Ha Hc E. rewrite bout_nil in E. inversion E; subst. exists st, [].
     split; [reflexivity|]. split; [apply wsame_wrote, wsame_refl|auto].
   - (* BCons *) intros s IHs r IHr f st text env Hf Hg Hn Ha Hc E. rewrite bout_cons in E. rewrite bdepth_cons in Hf.
@@ -663,10 +690,18 @@ Proof.
     destruct (bout (c_ij cf) (mode st) go_print_text denv callee env1 r) as [c0|] eqn:Er; [|discriminate]. inversion E; subst. clear E.
     destruct (IHs f st a env env1 ltac:(lia) Hg Hn Ha Hc Ea) as (st1 & ws1 & rv & E1 & W1 & C1 & M1 & N1 & T1 & A1).
     rewrite bnodes_cons. cbn [walk_list]. unfold mbind at 1. rewrite E1.
-    destruct (IHr f st1 c0 env1 ltac:(lia) (wrote_wok _ _ _ W1 Hg) N1 A1 (go_envok st _ env s a env1 Ha Hc Ea)) as (st2 & ws2 & E2 & W2 & C2 & M2 & T2).
+    destruct (IHr f st1 c0 env1 ltac:(lia) (wrote_wok _ _ _ W1 Hg) N1 A1 (go_envok st _ env s a env1 Ha Hc Ea)) as (st2 & ws2 & E2 & W2 & C2 & M2 & T2 & Am2).
     { rewrite M1. exact Er. }
     exists st2, (ws1 ++ ws2). split; [exact E2|]. split; [exact (wrote_trans _ _ _ _ _ W1 W2)|].
-    split; [rewrite concat_b_app; congruence|]. split; congruence.
+    split; [rewrite concat_b_app; congruence|]. split; [congruence|]. split; [congruence|].
+    intro Hm. cbn [msg_ok] in Hm. apply andb_prop in Hm. destruct Hm as [Hs Hr].
+    replace env with env1; [exact (Am2 Hr)|].
+    destruct s; try discriminate Hs.
+    + rewrite sout_raw in Ea. inversion Ea; reflexivity.
+    + rewrite sout_print in Ea. destruct (ceval (c_ij cf) env e); [|discriminate]. destruct (scalar_string v); [|discriminate].
+      destruct (cleanb b); [|discriminate]. inversion Ea; reflexivity.
+    + rewrite sout_call in Ea. destruct (cdata_env _ _ _ _); [|discriminate]. destruct (pout _ _ _ _ _ _ _ _); [|discriminate].
+      destruct (callee _ _); [|discriminate]. inversion Ea; reflexivity.
   - (* ENone *) intros F st text env Hf Hg Ha Hc E. rewrite eout_none in E. inversion E; subst. exists st, [], VUndef.
     split; [reflexivity|]. split; [apply wsame_wrote, wsame_refl|auto].
   - (* EElse *) intros b IHb F st text env Hf Hg Ha Hc E. rewrite eout_else in E. rewrite edepth_else in Hf.
